@@ -112,3 +112,34 @@ def run(ctx):
         except Exception as e:
             import traceback
             ctx.fail(klass, 'implementation raised %r' % e, dict(rep, tb=traceback.format_exc()[-600:]))
+    # every numbered single-qubit Clifford C(k) (several are of order 3 or 4, i.e. not their own inverse), alone, in a circuit and
+    # compiled: backward undoes forward and forward undoes backward on operators with every phase and on signed mixed tableaux
+    for k in range(24):
+        for _ in range(ctx.budget(1, 4)):
+            N = rng.choice([1, 2, 3])
+            q = rng.randrange(N)
+            Ps = [G.rand_op(rng, N) for _k in range(4)] + [(tuple('XYZ'[(j_ + i_) % 3] if i_ == q else 'I' for i_ in range(N)), ph_) for j_, ph_ in ((0, 0), (1, 1), (2, 2))]
+            rows, r = G.rand_tableau(rng, N)
+            for conf in ('gate', 'circuit', 'compiled', 'Circuit'):
+                ctx.case(('C(k) round trip', k, N, q, conf), True, sample=dict(op='C', k=k, N=N, qubit=q, how=conf))
+                ctx.count('named-C:' + conf)
+                try:
+                    if conf == 'gate':
+                        obj = CI.C(k, q)
+                    else:
+                        obj = (CI.Circuit(N) if conf == 'Circuit' else CI.CliffordCircuit(N))
+                        obj.take(CI.C(k, q))
+                        if conf == 'compiled':
+                            obj.compile()
+                    for order in ('fb', 'bf'):
+                        f1, f2 = (obj.forward, obj.backward) if order == 'fb' else (obj.backward, obj.forward)
+                        lst = impl.plist(Ps)
+                        f1(lst); f2(lst)
+                        st = impl.state(rows, r)
+                        f1(st); f2(st)
+                        if impl.ops_of(lst) != [(x[0], x[1] % 4) for x in Ps] or impl.ops_of(st) != [(x[0], x[1] % 4) for x in rows]:
+                            ctx.fail('C', 'C(%d) on qubit %d (%s): %s does not restore the operators / the state' % (k, q, conf, 'backward after forward' if order == 'fb' else 'forward after backward'),
+                                     dict(k=k, N=N, qubit=q, how=conf, Ps=Ps, got=impl.ops_of(lst)))
+                except Exception as e:
+                    ctx.fail('C', 'implementation raised %r for C(%d) (%s)' % (e, k, conf), dict(k=k, N=N, qubit=q))
+
